@@ -1653,13 +1653,26 @@ class Interp:
         env2[init["id"]] = sym
         frame = {"summary": summ, "comp_var": sym if is_comp else None, "var": sym}
         hi = None
+        cop = cond["op"] if cond and cond.get("k") == "bin" else None
         if cond and cond.get("k") == "bin" and cond["op"] in ("<", "<=", ">", ">="):
             try:
                 hi = self.ev(cond["r"], env)
+                lhs = self.ev(cond["l"], env)
+                # any condition linear in the loop variable:  a*i + b  op  0  with a = +-1   ->   i  op'  bound
+                if isinstance(lhs, sp.Expr) and isinstance(hi, sp.Expr) and not (lhs == sym and sym not in hi.free_symbols):
+                    d = sp.expand(lhs - hi)
+                    a = d.coeff(sym, 1)
+                    rest = sp.expand(d - a * sym)
+                    if a in (1, -1) and sym not in rest.free_symbols:
+                        hi = sp.expand(-rest / a)
+                        if a == -1:
+                            cop = {"<": ">", "<=": ">=", ">": "<", ">=": "<="}[cop]
+                    else:
+                        hi = None
             except Unsupported:
                 hi = None
         summ.hi = hi
-        summ.cond_op = cond["op"] if cond and cond.get("k") == "bin" else None
+        summ.cond_op = cop
         if hi is not None and summ.cond_op in ("<", "<=", ">", ">="):
             try:
                 c0 = self.compare(summ.cond_op, lo, hi)
